@@ -550,7 +550,9 @@ class SVGLexicalParser:
                         self._flag(),
                         self._rcoord(),
                     )
-                    if sweep is None:
+                    if rx is None or ry is None or rotation is None:
+                        raise ValueError
+                    if arc is None or sweep is None:
                         raise ValueError
                     if coord is None:
                         coord = self.inline_close
@@ -567,6 +569,10 @@ class SVGLexicalParser:
                         self._flag(),
                         self._coord(),
                     )
+                    if rx is None or ry is None or rotation is None:
+                        raise ValueError
+                    if arc is None or sweep is None:
+                        raise ValueError
                     if coord is None:
                         coord = self.inline_close
                         if coord is None:
